@@ -18,7 +18,7 @@ PROP = "C08"
 PROP_FILE = "C08_PolicySet"
 THEOREMS = ["c08_fail_noop_api", "c08_fail_noop_core", "c08_link_arity", "c08_binding_exact",
             "c08_link_effect_annotations_partial", "c08_wf_step", "c08_history_partial", "c08_wf_step_core",
-            "c08_wf_refuted_without_it", "c08_no_shared_id", "c08_link_has_template", "c08_link_subst_partial"]
+            "c08_wf_refuted_without_it", "c08_no_shared_id", "c08_link_has_template", "c08_link_subst_partial", "c08_link_static_body_refused", "c08_refines", "c08_policies_exact", "c08_merge_partial"]
 
 MANIFEST = {
     "text": "Policy-set bookkeeping (templates / links / template_to_links + the API-level maps) modelled operation by operation; invariant preserved by every operation and history, failed operation = no change, link arity, link = substitution for evaluation, refinement to a finite map (props/C08_PolicySet.v). Tied to /repo by correspondence on operation histories at API and core level plus an implementation-level oracle (abstract state recomputed from the successful operations, responses recomputed from probes of hand-substituted policies).",
@@ -162,8 +162,25 @@ def gen_case(rng, level, nops=None):
     templates = [gen_body(rng, w, True) for _ in range(4)]
     q2 = dict(w.request, principal=rng.choice(w.uids))
     q3 = dict(w.request, resource=rng.choice(w.uids), action=rng.choice(w.actions))
-    ops = gen_ops(rng, w, statics, templates, nops or rng.randint(6, 18), level)
-    return {"level": level, "world": w, "requests": [w.request, q2, q3], "ops": ops}
+    init = None
+    known = None
+    if level == "api" and rng.random() < 0.3:
+        # start from PolicySet::from_json_value: static ids named by templateLinks, slot-less entries under
+        # "templates", ids shared between the three sections, links with missing / extra values
+        st, tp, ln = {}, {}, []
+        for _ in range(rng.choice([0, 1, 1, 2])):
+            st[rng.choice(POOL)] = rng.choice(statics[:-2])
+        for _ in range(rng.choice([0, 1, 1, 2])):
+            tp[rng.choice(POOL)] = rng.choice(statics[-2:]) if rng.random() < 0.2 else rng.choice(templates)
+        for _ in range(rng.choice([0, 1, 1, 2, 3])):
+            cands = list(tp) * 3 + list(st) + [rng.choice(POOL)]
+            tid = rng.choice(cands)
+            slots = slots_of(tp[tid]) if tid in tp else []
+            ln.append({"template": tid, "id": rng.choice(POOL), "env": gen_env(rng, w, slots)})
+        init = {"statics": sorted(st.items()), "templates": sorted(tp.items()), "links": ln}
+        known = {i: b for i, b in tp.items() if slots_of(b)}
+    ops = gen_ops(rng, w, statics, templates, nops or rng.randint(6, 18), level, known=known)
+    return {"level": level, "world": w, "requests": [w.request, q2, q3], "ops": ops, "init": init}
 
 
 # ------------------------------------------------------------------ commands
@@ -182,6 +199,16 @@ def op_json(op):
     return o
 
 
+def init_ops(case):
+    """the EST sections as the operations the conversion performs, in its order"""
+    i = case.get("init")
+    if not i:
+        return []
+    return ([{"op": "add", "id": k, "body": b, "via": "add"} for k, b in i["statics"]] +
+            [{"op": "add_template", "id": k, "body": b} for k, b in i["templates"]] +
+            [{"op": "link", "template": l["template"], "id": l["id"], "env": l["env"]} for l in i["links"]])
+
+
 def collect_probes(case):
     """every hand-substituted static text that can occur: static bodies, and template bodies under each env used"""
     probes = {}
@@ -196,7 +223,7 @@ def collect_probes(case):
                     probes[body_key(b)] = b
             if op["op"] == "merge":
                 walk(op["other"])
-    walk(case["ops"])
+    walk(init_ops(case) + case["ops"])
 
     def walk2(ops):
         for op in ops:
@@ -207,7 +234,7 @@ def collect_probes(case):
                         probes[body_key(sb)] = sb
             if op["op"] == "merge":
                 walk2(op["other"])
-    walk2(case["ops"])
+    walk2(init_ops(case) + case["ops"])
     return probes
 
 
@@ -218,7 +245,11 @@ def rust_cmd(case):
             "requests": [cedar.request_json(q) for q in case["requests"]],
             "entities": cedar.entities_json(w.entities),
             "ops": [op_json(o) for o in case["ops"]],
-            "probes": [{"key": k, "text": text(b)} for k, b in sorted(probes.items())]}
+            "probes": [{"key": k, "text": text(b)} for k, b in sorted(probes.items())],
+            **({"init": {"statics": [{"id": i, "text": text(b)} for i, b in case["init"]["statics"]],
+                         "templates": [{"id": i, "text": text(b)} for i, b in case["init"]["templates"]],
+                         "links": [{"template": l["template"], "id": l["id"], "env": env_json(l["env"])}
+                                   for l in case["init"]["links"]]}} if case.get("init") else {})}
 
 
 # ------------------------------------------------------------------ model side
@@ -239,8 +270,11 @@ def op_sx(op):
 
 def model_cmd(case):
     w = case["world"]
-    return [Sym("pset_history"), Sym(case["level"]), cedar.entities_sx(w.entities),
+    base = [Sym("pset_history"), Sym(case["level"]), cedar.entities_sx(w.entities),
             [cedar.request_sx(q) for q in case["requests"]], [op_sx(o) for o in case["ops"]]]
+    if case.get("init"):
+        base.append([op_sx(o) for o in init_ops(case)])
+    return base
 
 
 def sx_uid(s):
@@ -292,15 +326,21 @@ def canon_rust_step(st, level):
 
 def correspondence(case, res, ms):
     """first difference between the model's and the implementation's step records, or None"""
+    if "init_error" in res:
+        if isinstance(ms, list) and len(ms) == 2 and str(ms[0]) == "init_error" and str(ms[1]) == res["init_error"]:
+            return None
+        return "from_json: implementation %r, model %r" % (res["init_error"], ms)
     if "steps" not in res:
         return "implementation did not run: %r" % (res,)
     if not isinstance(ms, list) or len(ms) != len(res["steps"]):
         return "model did not run: %r" % (ms if not isinstance(ms, list) else len(ms),)
     for n, (st, m) in enumerate(zip(res["steps"], ms)):
         r, mm = canon_rust_step(st, case["level"]), canon_model_step(m, case["level"])
+        if r["result"] == "init":
+            r["result"] = "ok"
         for k in r:
             if r[k] != mm[k]:
-                return "op %d (%s): %s differs: implementation %r, model %r" % (n, case["ops"][n]["op"], k, r[k], mm[k])
+                return "step %d: %s differs: implementation %r, model %r" % (n, k, r[k], mm[k])
     return None
 
 
@@ -398,7 +438,7 @@ def expected_response(policies, probe, qi):
 def check_case(case, res):
     """the property stated on the implementation's own results; returns (problem or None, stats)"""
     stats = {"ok": 0, "err": {}, "ops": {}, "links_live": 0, "merge_renamed": 0}
-    if "steps" not in res:
+    if "steps" not in res and "init_error" not in res:
         return "harness did not run the history: %r" % (res,), stats
     level = case["level"]
     bodies = {}
@@ -410,12 +450,39 @@ def check_case(case, res):
             if op["op"] == "merge":
                 reg(op["other"])
     reg(case["ops"])
-    probe = {p["key"]: p for p in res["probes"]}
+    probe = {p["key"]: p for p in res.get("probes", [])}
     a = Abs(level)
     a.bodies = bodies
     prev = None
     untracked = False
-    for n, (op, st) in enumerate(zip(case["ops"], res["steps"])):
+    steps = res.get("steps", [])
+    if case.get("init"):
+        # from_json: Ok iff every section entry is acceptable in the conversion's order
+        reg(init_ops(case))
+        good = True
+        for op in init_ops(case):
+            if op["op"] == "add_template" and not slots_of(op["body"]):
+                # slot-less entry under "templates": known finding C08:est-slotless-template-link territory
+                return ("SLOTLESS", "from_json accepted/handled a slot-less entry under templates"), stats
+            pr, mm = a.predict(op)
+            if not pr:
+                good = False
+                break
+            a.m = mm
+        stats["ops"]["from_json"] = 1
+        if "init_error" in res:
+            stats["err"]["init:" + res["init_error"]] = 1
+            if good:
+                return "from_json failed with %s but every entry is acceptable" % res["init_error"], stats
+            return None, stats
+        if not good:
+            return "from_json succeeded but an entry is not acceptable (abstract state %r)" % (sorted(a.m.items()),), stats
+        bad = compare_dump(a, steps[0], level, probe)
+        if bad:
+            return "after from_json: %s" % bad, stats
+        prev = {x: steps[0][x] for x in steps[0] if x not in ("result", "renaming", "to_json")}
+        steps = steps[1:]
+    for n, (op, st) in enumerate(zip(case["ops"], steps)):
         k = op["op"]
         ok = st["result"] == "ok"
         stats["ops"][k] = stats["ops"].get(k, 0) + 1
@@ -423,7 +490,7 @@ def check_case(case, res):
             stats["ok"] += 1
         else:
             stats["err"][st["result"]] = stats["err"].get(st["result"], 0) + 1
-        dump = {x: st[x] for x in st if x not in ("result", "renaming")}
+        dump = {x: st[x] for x in st if x not in ("result", "renaming", "to_json")}
         where = "op %d (%s)" % (n, k)
         # --- a failed operation changes nothing
         if not ok and prev is not None and canon_dump(dump) != canon_dump(prev):
@@ -648,6 +715,58 @@ FINDING_OPS = [{"op": "add", "id": "a", "body": None, "via": "add_static"},
                {"op": "remove_static", "id": "a"}]
 
 
+def slotless_inconsistent(step):
+    api_t = {t["id"] for t in step["api"]["templates"]}
+    ast_t = {t["id"] for t in step["ast"]["templates"]}
+    statics = {p["id"] for p in step["api"]["policies"] if p["static"]}
+    dangling = [p["id"] for p in step["api"]["policies"] if not p["static"] and p["template"] not in api_t]
+    hidden = sorted(ast_t - api_t - statics)
+    return bool(dangling or hidden)
+
+
+Q0 = {"principal": {"type": "User", "id": "a"}, "action": {"type": "Action", "id": "v"},
+      "resource": {"type": "User", "id": "a"}, "context": {}}
+STATIC_TEXT = "permit(principal, action, resource);"
+
+
+def explicit_probes(rep, harness):
+    """the two findings of this property as fixed inputs.  A: a link against the body of a static policy
+       (fixed by 3c064e2; key C08:link-to-static-policy-body).  B: slot-less entry under "templates" plus a
+       link to it (key C08:est-slotless-template-link)."""
+    base = {"cmd": "pset_history", "universe": ["p", "n", "t"], "requests": [Q0], "entities": [], "probes": []}
+    a1 = dict(base, level="api", ops=[], init={"statics": [{"id": "p", "text": STATIC_TEXT}], "templates": [],
+                                                   "links": [{"template": "p", "id": "n", "env": []}]})
+    a2 = dict(base, level="ast", ops=[{"op": "add", "id": "p", "text": STATIC_TEXT, "via": "add_static"},
+                                       {"op": "link", "template": "p", "id": "n", "env": []},
+                                       {"op": "remove_static", "id": "p"}, {"op": "unlink", "id": "n"}])
+    b = dict(base, level="api", ops=[{"op": "remove_template", "id": "t"}],
+             init={"statics": [], "templates": [{"id": "t", "text": STATIC_TEXT}],
+                   "links": [{"template": "t", "id": "n", "env": []}]})
+    r1, r2, rb = fw.run_rust(harness, [a1, a2, b])
+    out = {}
+    # A1: from_json must refuse (an error), not panic and not build a link against a static policy's body
+    out["A_from_json"] = "init_error:" + r1["init_error"] if "init_error" in r1 else ("panic" if "panic" in r1 else "accepted")
+    if "init_error" not in r1:
+        rep.violation({"property": PROP, "kind": "PolicySet::from_json_value with templateLinks naming a static policy is not refused",
+                       "input": a1, "rust": r1}, key="C08:link-to-static-policy-body")
+    # A2: the core sequence: link must fail, nothing may panic, no link without its template afterwards
+    ok2 = "steps" in r2 and r2["steps"][1]["result"] != "ok" and not any(
+        (not p["static"]) and p["template"] not in {t["id"] for t in s["ast"]["templates"]}
+        for s in r2["steps"] for p in s["ast"]["links"])
+    out["A_core"] = [s["result"] for s in r2["steps"]] if "steps" in r2 else r2
+    if not ok2:
+        rep.violation({"property": PROP, "kind": "ast::PolicySet: add_static; link against the static policy's body; remove_static; unlink — link accepted / dangling link / panic",
+                       "input": a2, "rust": r2}, key="C08:link-to-static-policy-body")
+    # B
+    if "steps" in rb and slotless_inconsistent(rb["steps"][0]):
+        out["B"] = "accepted, API view inconsistent"
+        rep.violation({"property": PROP, "kind": "from_json accepts a slot-less entry under templates plus a link to it; templates()/template(id) do not show the link's template, remove_template says TemplateNonexistent",
+                       "input": b, "rust": rb}, key="C08:est-slotless-template-link")
+    else:
+        out["B"] = "init_error:" + rb["init_error"] if "init_error" in rb else "consistent"
+    return out
+
+
 def run(rep, tier, seed):
     ob, dis, details, failures = (0, 0, {}, [])
     if THEOREMS:
@@ -658,6 +777,7 @@ def run(rep, tier, seed):
     n_api = 700 if tier == "quick" else 12000
     n_ast = 400 if tier == "quick" else 8000
     cases = [gen_case(rng, "api") for _ in range(n_api)] + [gen_case(rng, "ast") for _ in range(n_ast)]
+    probe_outcome = explicit_probes(rep, harness)
     rcmds = [rust_cmd(c) for c in cases]
     rres = fw.run_rust(harness, rcmds)
     mcmds = [model_cmd(c) for c in cases]
@@ -668,6 +788,14 @@ def run(rep, tier, seed):
     nviol = 0
     for ci, (c, r) in enumerate(zip(cases, rres)):
         bad, st = check_case(c, r)
+        if isinstance(bad, tuple):
+            # slot-less entry under "templates" accepted by from_json: the known finding when the API view
+            # is inconsistent (a link whose template the API does not list / a core template never shown)
+            bad = None
+            agg["slotless_init"] = agg.get("slotless_init", 0) + 1
+            if "steps" in r and slotless_inconsistent(r["steps"][0]):
+                rep.violation({"property": PROP, "kind": "from_json accepts a slot-less entry under templates; the API then shows a link without its template / hides the template",
+                               "case": describe(c), "rust": r["steps"][0]}, key="C08:est-slotless-template-link")
         for k in ("ok", "links_live", "merge_renamed"):
             agg[k] += st[k]
         for k in ("err", "ops"):
@@ -704,6 +832,8 @@ def run(rep, tier, seed):
         "traces_validated_against_impl": len(cases), "vm_compute_crosscheck_cases": nx,
         "operation_histogram": agg["ops"], "ok_operations": agg["ok"], "error_histogram": agg["err"],
         "live_links_observed": agg["links_live"], "ids_renamed_by_merge": agg["merge_renamed"],
+        "explicit_probes": probe_outcome, "from_json_starts": sum(1 for c in cases if c.get("init")),
+        "from_json_slotless_template_cases": agg.get("slotless_init", 0),
         "samples": [describe(cases[0])],
     }
     rep.assumptions = ["error messages not compared, only classes", "policy ids from a 5-element pool; fresh ids policy<n>"]
